@@ -133,6 +133,7 @@ type Ctx struct {
 	ifaces      map[int]*types.Interface
 	sentinels   map[string]bool
 	baseFrames  map[string]*lazyFrame
+	baseAlloc   map[string]string // heap base -> allocation counter when it came into being
 	axiomsDone  map[string]bool
 	// tid: identifier of a Go type (for objtype facts); nil outside function verification
 	tid func(types.Type) int
